@@ -201,3 +201,30 @@ Proof.
   now rewrite (leb_not_ltb _ _ H1), (leb_not_ltb _ _ H2).
 Qed.
 Print Assumptions F_clamp_id.
+
+(* ------------------------------------------------------------------ *)
+(* F3: deterministic clauses of the acceptance rule (binary64)         *)
+
+Section Accept.
+  Variable fexp : F -> F.
+
+  Lemma accept_F (thr s old kT : F) :
+    accept NumF fexp thr (Some s) old kT =
+    if fnan s then false else if fltb old s then true
+    else fltb thr (nmin (NN:=NumF) (fexp (Coq.Floats.PrimFloat.div (Coq.Floats.PrimFloat.sub s old) kT)) 1%float).
+  Proof. reflexivity. Qed.
+
+  (* a better score is accepted at every temperature and for every threshold *)
+  Theorem F_accept_better : forall thr old new kT : F,
+    fltb old new = true -> accept NumF fexp thr (Some new) old kT = true.
+  Proof.
+    intros thr old new kT H. rewrite accept_F.
+    destruct (ltb_not_nan _ _ H) as [_ Hn]. now rewrite Hn, H.
+  Qed.
+
+  (* a score that is not a number is never accepted *)
+  Theorem F_accept_nan : forall thr old new kT : F,
+    fnan new = true -> accept NumF fexp thr (Some new) old kT = false.
+  Proof. intros thr old new kT H. rewrite accept_F. now rewrite H. Qed.
+
+End Accept.
